@@ -953,3 +953,96 @@ func ruleC17_7(c *Ctx) {
 	}
 	c.check(n == 1, R, fname(f), "exactly one place slices the name", f.Pos(), "the star scan", fmt.Sprintf("%d slice expressions on the name", n))
 }
+
+// R-C17-8: every term of a chunk consumes one character of the name, so the name is only read (indexed, sliced,
+// decoded, handed to a helper) where it is known to be non-empty — directly, or through the `failed` flag whose
+// false value implies the emptiness test was passed (flag-implied facts). A term that reads an exhausted name
+// matches "nothing" as a character: `[^x]` would match the end of the path.
+func init() {
+	if p := registry["C17"]; p != nil {
+		p.Rules = append(p.Rules, Rule{ID: "R-C17-8", Doc: "matchChunk reads the name only where it is known to be non-empty", Min: 3, Run: ruleC17_8})
+		p.Explanation += " (R-C17-8) in matchChunk every read of the name (index, re-slice, rune decoding, helper call) lies where the name is known to be non-empty, directly or through the failed flag."
+	}
+}
+
+func ruleC17_8(c *Ctx) {
+	const R = "R-C17-8"
+	f := c.lookup("in_toto.matchChunk")
+	if f == nil {
+		c.undecided(R, "in_toto.matchChunk", "anchor", 0, "not found")
+		return
+	}
+	fn := fname(f)
+	// the name values: parameter 1 and everything derived from it by phi / re-slicing / helper results of type string
+	isName := func(v ssa.Value) bool {
+		if typeStr(v.Type()) != "string" {
+			return false
+		}
+		return derives(v, func(x ssa.Value) bool { return x == ssa.Value(f.Params[1]) }, true) &&
+			!derives(v, func(x ssa.Value) bool { return x == ssa.Value(f.Params[0]) }, true)
+	}
+	nonEmpty := func(v ssa.Value, blk *ssa.BasicBlock) bool {
+		if c.lenFactsExclude(f, v, 1, blk) {
+			return true
+		}
+		// s != "" / s == ""
+		if refs := v.Referrers(); refs != nil {
+			for _, r := range *refs {
+				bo, ok := r.(*ssa.BinOp)
+				if !ok || (bo.Op != token.EQL && bo.Op != token.NEQ) {
+					continue
+				}
+				other := bo.Y
+				if other == v {
+					other = bo.X
+				}
+				if sv, isS := constString(other); isS && sv == "" && c.condAt(bo, bo.Op == token.NEQ, blk) {
+					return true
+				}
+			}
+		}
+		return false
+	}
+	n := 0
+	obl := func(v ssa.Value, in ssa.Instruction, what string) {
+		n++
+		c.check(nonEmpty(v, in.Block()), R, fn, what, in.Pos(), "the name is known to be non-empty here (length fact, possibly through the failed flag)",
+			"the name is read ("+what+") where it may be exhausted: the term then matches the end of the path instead of a character")
+	}
+	seen := map[string]int{}
+	key := func(s string) string { seen[s]++; return fmt.Sprintf("%s #%d", s, seen[s]) }
+	for _, b := range f.Blocks {
+		for _, in := range b.Instrs {
+			switch x := in.(type) {
+			case *ssa.Slice:
+				if isName(x.X) && x.Low != nil {
+					if k, isK := constInt(x.Low); isK && k == 0 {
+						continue
+					}
+					obl(x.X, x, key("re-slice of the name"))
+				}
+			case *ssa.Index:
+				if isName(x.X) {
+					obl(x.X, x, key("index into the name"))
+				}
+			case *ssa.Lookup:
+				if isName(x.X) {
+					obl(x.X, x, key("index into the name"))
+				}
+			case ssa.CallInstruction:
+				cn := calleeName(x)
+				if cn == "builtin:len" {
+					continue
+				}
+				for _, a := range callArgs(x) {
+					if isName(a) {
+						obl(a, x, key("name passed to "+cn))
+					}
+				}
+			}
+		}
+	}
+	if n == 0 {
+		c.undecided(R, fn, "reads of the name", f.Pos(), "no read of the name found")
+	}
+}
